@@ -1466,3 +1466,42 @@ Proof.
   destruct (nm_perc_spec X Z xi zeta tr g h W Eh) as [_ [S _]]. cbn [gnodes to_graph graph_of].
   eapply nodes_nonempty; [exact S|exact Hne].
 Qed.
+
+(* ---------------- get_infected_nodes ---------------- *)
+Definition pg_wf (h : pgraph) : Prop :=
+  NoDup (pg_nodes h) /\ NoDup (pg_edges h) /\ forall u v, In (u, v) (pg_edges h) -> In u (pg_nodes h) /\ In v (pg_nodes h).
+
+Lemma timing_pg_wf dur delay g w : wfg g -> pg_wf (nm_perc_timing dur delay g w).
+Proof.
+  intro W. destruct (nm_perc_timing_spec dur delay g w W) as [N [S [_ E]]].
+  split; [exact N|]. split; [apply timing_edges_nodup|].
+  intros u v H. apply E in H. destruct H as [Hu [Hv _]]. split; apply S; [exact Hu|apply (wf_adj_in g W u Hu); exact Hv].
+Qed.
+
+Lemma removed_adj h r0 u v :
+  In v (gadj (to_graph (remove_nodes h r0)) u) <-> In (u, v) (pg_edges h) /\ ~ In u r0 /\ ~ In v r0.
+Proof.
+  unfold to_graph. rewrite graph_of_adj_dir. cbn [pg_edges remove_nodes]. rewrite filter_In. cbn [fst snd].
+  rewrite andb_true_iff, !negb_true_iff, !mem_nIn. tauto.
+Qed.
+
+(* the nodes reachable from the initial infecteds in the percolated network from which
+   the initially recovered nodes (and their arcs) have been removed *)
+Lemma infected_nodes_in_spec h i0 r0 : pg_wf h -> incl r0 (pg_nodes h) -> incl i0 (pg_nodes h) ->
+  (forall x, In x i0 -> ~ In x r0) ->
+  exists r, infected_nodes_in h i0 r0 = Ok r /\ NoDup r /\
+            forall y, In y r <-> exists s, In s i0 /\ reach (gadj (to_graph (remove_nodes h r0))) s y.
+Proof.
+  intros [N [NE EI]] Hr Hi Hd. unfold infected_nodes_in.
+  assert (forallb (fun x => mem x (pg_nodes h)) r0 = true) as ->.
+  { apply forallb_forall. intros x Hx. apply mem_In. apply Hr. exact Hx. }
+  assert (W : wfg (to_graph (remove_nodes h r0))).
+  { unfold to_graph. apply graph_of_wfg.
+    - cbn. apply NoDup_filter. exact N.
+    - cbn. apply NoDup_filter. exact NE.
+    - intros u v H. cbn [pg_edges pg_nodes remove_nodes] in *. apply filter_In in H. destruct H as [H1 H2]. cbn [fst snd] in H2.
+      apply andb_true_iff in H2. destruct H2 as [A B]. destruct (EI u v H1) as [Hu Hv].
+      split; apply filter_In; split; assumption. }
+  apply (out_comp_spec _ W (Many i0)). cbn [sources to_graph gnodes graph_of pg_nodes remove_nodes].
+  intros x Hx. apply filter_In. split; [apply Hi; exact Hx|]. apply negb_true_iff. apply mem_nIn. apply Hd. exact Hx.
+Qed.
